@@ -35,3 +35,21 @@ Theorem C17_previous_path_touches_one_record : forall nl rel prev, rel <> [] ->
   nl_root (nl_set_prev nl rel prev) = nl_root nl.
 Proof. exact nl_set_prev_records. Qed.
 Print Assumptions C17_previous_path_touches_one_record.
+
+(* the rename map that verify / diff / create apply to the recorded paths (as repaired by the fix commit "a file renamed
+   again in a later generation is expected under its latest name only"): within one hash list its own renames win;
+   a path known so far follows a further rename of its target -- so chains a -> b -> c over several generations resolve
+   to the latest name and neither a nor b is reported missing *)
+Theorem C17_rename_map_step : forall h m g k,
+  lookup_last (rename_step h m g) k =
+  match lookup_last (gen_renames h g) k with
+  | Some v => Some v
+  | None => option_map (fun v => match lookup_last (gen_renames h g) v with Some p => p | None => v end) (lookup_last m k)
+  end.
+Proof. exact rename_step_lookup. Qed.
+Print Assumptions C17_rename_map_step.
+Theorem C17_rename_chain_resolved : forall h m g a b c,
+  lookup_last m a = Some b -> lookup_last (gen_renames h g) a = None -> lookup_last (gen_renames h g) b = Some c ->
+  lookup_last (rename_step h m g) a = Some c /\ lookup_last (rename_step h m g) b = Some c.
+Proof. exact rename_chain_resolved. Qed.
+Print Assumptions C17_rename_chain_resolved.
